@@ -253,6 +253,10 @@ package litefs
 //@   loop 4 modifies contents(db.wal.frameOffsets)
 //@   loop 5 invariant stage == 10 && !pageNSet && walKeysPositive(db) && (forall p uint32 :: has(newWALChksums, p) ==> p > 0)
 //@   loop 5 modifies contents(db.wal.chksums), class("S|ltx.Checksum")
+// every page of the transaction is recorded: each key the ranges have produced so far is in the WAL page index / the WAL
+// checksum overlay (in particular the zero markers of truncated pages are kept: they force a page-by-page sum of their block)
+//@   loop 4 invariant forall p uint32 :: visited(4, p) ==> has(db.wal.frameOffsets, p)
+//@   loop 5 invariant forall p uint32 :: visited(5, p) ==> has(db.wal.chksums, p)
 //@   ensures   err == nil
 //@   ensures   stage == 12 || (noTx && stage == 1)
 //@   ensures   lockStateFrame(db)
